@@ -394,6 +394,10 @@ func init() {
 		x := f.expr(st, call.Args[0])
 		fmtc, okf := f.tinfo().Types[call.Args[1]]
 		prec, okp := f.tinfo().Types[call.Args[2]]
+		// the per-value formatters below are the 64-bit ones: any other bitSize (the value is rounded to float32 first) is opaque
+		if bs, okb := f.tinfo().Types[call.Args[3]]; !okb || bs.Value == nil || bs.Value.ExactString() != "64" {
+			okf = false
+		}
 		if okf && okp && fmtc.Value != nil && prec.Value != nil && fmtc.Value.ExactString() == "103" && prec.Value.ExactString() == "-1" {
 			return []Term{{S: "(fmt_g_F64 " + x.S + ")", Sort: SStr, GoT: f.typeOf(call)}}
 		}
